@@ -174,7 +174,7 @@ def make_feature_list(settings, rng):
 EVALUATOR_KINDS = ["rbf", "kernel", "spline", "linear", "rbf+linear", "spline+rbf"]
 
 
-def _make_fevals(kind, N1, rng, mode, bounds):
+def _make_fevals(kind, N1, rng, mode, bounds, layout=None):
     from ciderpress.dft import xc_evaluator as xe
     from ciderpress.models.kernels import DiffConstantKernel, DiffRBF
 
@@ -193,26 +193,27 @@ def _make_fevals(kind, N1, rng, mode, bounds):
             alpha = nprng.normal(size=nctrl) * 0.05
             # callers hand over whatever array they have: strided views of a larger pool,
             # Fortran-ordered tables, read-only arrays (all valid NumPy inputs)
-            layout = rng.choice(["c", "c", "strided", "fortran", "cols", "readonly"])
+            drawn = rng.choice(["c", "c", "strided", "fortran", "cols", "readonly"])
+            lay = layout or drawn
             if part == "spinrbf":
                 X1c = lo + (hi - lo) * nprng.uniform(size=(2, nctrl, N1))
                 fevals.append(xe.SpinRBFEvaluator(kern, X1c, alpha))
             else:
                 X1c = lo + (hi - lo) * nprng.uniform(size=(nctrl, N1))
-                if layout == "strided":
+                if lay == "strided":
                     pool = np.full((2 * nctrl, N1), 1e3)
                     pool[::2] = X1c
                     X1c = pool[::2]
                     apool = np.full(2 * nctrl, 1e3)
                     apool[::2] = alpha
                     alpha = apool[::2]
-                elif layout == "fortran":
+                elif lay == "fortran":
                     X1c = np.asfortranarray(X1c)
-                elif layout == "cols":
+                elif lay == "cols":
                     pool = np.full((nctrl, N1 + 3), 1e3)
                     pool[:, 1 : N1 + 1] = X1c
                     X1c = pool[:, 1 : N1 + 1]
-                elif layout == "readonly":
+                elif lay == "readonly":
                     X1c.setflags(write=False)
                     alpha.setflags(write=False)
                 if part == "rbf":
@@ -261,7 +262,7 @@ def _make_fevals(kind, N1, rng, mode, bounds):
     return fevals
 
 
-def make_model(settings, rng, evaluator="rbf", mode="SEP", version=1, nkernel=1, baselines=None):
+def make_model(settings, rng, evaluator="rbf", mode="SEP", version=1, nkernel=1, baselines=None, layout=None):
     """Return a MappedXC (version 1) or MappedXC2 (version 2)."""
     from ciderpress.dft import baselines as B
     from ciderpress.dft import xc_evaluator as xe
@@ -276,7 +277,7 @@ def make_model(settings, rng, evaluator="rbf", mode="SEP", version=1, nkernel=1,
         ev = evaluator
         if mode == "POL":
             ev = "spinrbf"  # the only evaluator that accepts the (2, nsamp, nfeat) POL layout
-        fevals = _make_fevals(ev, fl.nfeat, rng, mode, bounds)
+        fevals = _make_fevals(ev, fl.nfeat, rng, mode, bounds, layout=layout)
         if version == 1:
             if baselines is None:
                 mulname = "LDA_X" if ik == 0 else "RHO"
